@@ -94,7 +94,9 @@ def gen_tu(tu, tu_defs):
     src = os.path.join(VERIF, 'wrappers', tu + '.cpp')
     ll = os.path.join(d, 'tu.ll')
     t0 = time.time()
-    rc, out, _, _ = sh(['clang++-14'] + CLANG_FLAGS + INCS + [f'-I{TOOL}'] + defs_args(tu_defs) + [src, '-o', ll], timeout=600)
+    opt = tu_defs.get('__OPT')    # optional optimisation level override for this TU (e.g. -O0 keeps multiplications as written)
+    cflags = [opt if (opt and f == '-O1') else f for f in CLANG_FLAGS]
+    rc, out, _, _ = sh(['clang++-14'] + cflags + INCS + [f'-I{TOOL}'] + defs_args({k: v for k, v in tu_defs.items() if k != '__OPT'}) + [src, '-o', ll], timeout=600)
     if rc != 0:
         raise Inconclusive(f'clang failed on {tu}:\n' + out[-4000:])
     c = os.path.join(d, 'tu.c')
@@ -235,7 +237,7 @@ def native_build(q, tui, qd, real, sanitize=False):
         o = os.path.join(tui['dir'], 'real' + ('_san' if sanitize else '') + '.o')
         if key not in _tu_cache:
             rc, out, _, _ = sh(['g++', '-std=c++17', '-c', '-O1', '-w', '-DDATASKETCHES_VERIF', '-include', f'{TOOL}/prelude.hpp', f'-I{TOOL}'] + san + INCS
-                               + defs_args(q.tu_defs) + [os.path.join(VERIF, 'wrappers', q.tu + '.cpp'), '-o', o], timeout=900)
+                               + defs_args({k: v for k, v in q.tu_defs.items() if k != '__OPT'}) + [os.path.join(VERIF, 'wrappers', q.tu + '.cpp'), '-o', o], timeout=900)
             if rc != 0:
                 raise Inconclusive(f'g++ failed on real wrappers {q.tu}:\n' + out[-3000:])
             _tu_cache[key] = o
